@@ -173,6 +173,7 @@ broadcast use reply_lemmas;
 pub use super::Severity;
 // rpc::Error: all fields other than the severity are abstracted into `ident`
 pub struct Error { pub severity: Severity, pub ident: u64 }
+impl PartialEq for Error { #[verifier::external_body] fn eq(&self, other: &Self) -> (r: bool) { unimplemented!() } }
 impl Error {
     // ASSUMED contract of rpc::Error::read_xml (verified separately for termination / panic-freedom, unit a2_error):
     // consumes the <rpc-error> subtree and yields its value, or fails.
@@ -192,19 +193,19 @@ impl View for Errors { type V = Seq<Error>; open spec fn view(&self) -> Seq<Erro
 impl Errors {
 //@extract id=errors_new file=netconf/src/message/rpc/error.rs impl=/^impl Errors/ fn=new rules=R1 vis=pub
 //@contract
-        ensures res@ == Seq::<Error>::empty(),
+        ensures res@ == Seq::<Error>::empty(),                                                // OBL:C08+C04.errors.new_is_empty
 //@end
 //@extract id=errors_is_empty file=netconf/src/message/rpc/error.rs impl=/^impl Errors/ fn=is_empty rules=R1 vis=pub
 //@contract
-        ensures res == (self@.len() == 0),
+        ensures res == (self@.len() == 0),                                                    // OBL:C08+C04.errors.is_empty_means_none
 //@end
 //@extract id=errors_len file=netconf/src/message/rpc/error.rs impl=/^impl Errors/ fn=len rules=R1 vis=pub
 //@contract
-        ensures res == self@.len(),
+        ensures res == self@.len(),                                                           // OBL:C08+C04.errors.len_counts_all
 //@end
 //@extract id=errors_push file=netconf/src/message/rpc/error.rs impl=/^impl Errors/ fn=push rules=R1 vis=pub
 //@contract
-        ensures final(self)@ == old(self)@.push(err),
+        ensures final(self)@ == old(self)@.push(err),                                         // OBL:C08+C04.errors.push_keeps_every_error_in_order
 //@end
 //@extract id=errors_has_severity_error file=netconf/src/message/rpc/error.rs impl=/^impl Errors/ fn=has_severity_error rules=R1,R7,R19,R17 r7map=option vis=pub
 //@contract
